@@ -7,6 +7,10 @@ cd "$VERIF"
 rc=0
 echo "[setup] building Go harness against ${VERIF_REPO:-/repo}"
 corr/build_harness.sh || { echo "[setup] harness build failed"; rc=1; }
+echo "[setup] building tools/sitescan (C08 site scanner)"
+mkdir -p "$VERIF/build"
+( cd "$VERIF/tools/sitescan" && timeout 600 go build -o "$VERIF/build/sitescan" . ) \
+  || echo "[setup] tools/sitescan did not build (the C08 check builds it on demand)"
 if [ -x corr/gen_kernels.sh ]; then
   echo "[setup] generating Gen/Kernels.v"
   corr/gen_kernels.sh || { echo "[setup] kernel translation failed"; rc=1; }
